@@ -110,12 +110,68 @@ func scFor(w *World) *scEngine {
 		scCache = &scEngine{w: w, memo: map[string]int{}, failConst: map[*ssa.Function]func(*ssa.Return) bool{}}
 		if f := lookupByName(w, "operated.GetShiftingSpatialID"); f != nil {
 			scCache.failConst[f] = func(r *ssa.Return) bool {
-				s, ok := constString(r.Results[0])
-				return ok && s == ""
+				if s, ok := constString(r.Results[0]); ok {
+					return s == ""
+				}
+				// a named result that nothing has assigned yet (bare return in front of the code
+				// and the closures that build the ID)
+				if ld, ok := r.Results[0].(*ssa.UnOp); ok && ld.Op == token.MUL {
+					return zeroAtLoad(ld)
+				}
+				return false
 			}
 		}
 	}
 	return scCache
+}
+
+// zeroAtLoad: the local variable read by ld still holds its zero value there: no store to it,
+// and no closure that captures it, lies on a path from the entry to the load.
+func zeroAtLoad(ld *ssa.UnOp) bool {
+	al, ok := ld.X.(*ssa.Alloc)
+	if !ok || al.Referrers() == nil {
+		return false
+	}
+	before := func(in ssa.Instruction) bool {
+		if in.Block() == ld.Block() {
+			for _, x := range in.Block().Instrs {
+				if x == in {
+					return true
+				}
+				if x == ssa.Instruction(ld) {
+					break
+				}
+			}
+			// after the load in the same block: only around a cycle
+			for _, sc := range in.Block().Succs {
+				if reachableFrom(sc, nil)[ld.Block()] {
+					return true
+				}
+			}
+			return false
+		}
+		return reachableFrom(in.Block(), nil)[ld.Block()]
+	}
+	for _, ref := range *al.Referrers() {
+		switch x := ref.(type) {
+		case *ssa.UnOp:
+			if x.Op != token.MUL {
+				return false
+			}
+		case *ssa.Store:
+			if x.Addr != ssa.Value(al) || before(x) {
+				return false
+			}
+		case *ssa.MakeClosure:
+			if before(x) {
+				return false
+			}
+		case *ssa.DebugRef:
+		default:
+			return false
+		}
+	}
+	return true
 }
 
 // isFailureReturn: the return reports failure.
@@ -1827,6 +1883,15 @@ func (c *simCtx) verdict(reach map[*ssa.BasicBlock]bool, loop *sliceRange) (bool
 			// failure reported through a constant result ("" of the shift helpers): a result that
 			// a module callee computes from the argument may be that constant
 			if c.e.failConst[c.f] != nil && len(r.Results) > 0 {
+				if ld, ok := r.Results[0].(*ssa.UnOp); ok && ld.Op == token.MUL {
+					if _, isAl := ld.X.(*ssa.Alloc); isAl {
+						// a result variable whose content at this return was not determined
+						if c.e.assumeReject {
+							continue
+						}
+						c.e.undecidedOnSubject = append(c.e.undecidedOnSubject, "the result returned at "+w.Pos(r.Pos())+" is a variable whose content was not determined")
+					}
+				}
 				if call, ok := resolve(r.Results[0]).(*ssa.Call); ok {
 					if g := calleeOf(call); g != nil && c.e.w.InModule(g) {
 						mentions := false
